@@ -17,7 +17,7 @@ out = {}
 try:
     for p in props:
         t0 = time.time()
-        env = dict(os.environ); env.setdefault("VERIF_MAX_S", "120")
+        env = dict(os.environ); env.setdefault("VERIF_MAX_S", "120"); env.setdefault("VERIF_SHRINK_S", "3")
         env.setdefault("VMSIM_HANG_S", "60")
         try:
             r = subprocess.run([os.path.join(ROOT, "check"), p, "quick"], capture_output=True, text=True, env=env, timeout=1500)
